@@ -138,6 +138,7 @@ type txScenario struct {
 	latBase     time.Duration
 	latJitter   time.Duration
 	restartAt   time.Duration // 0 = none
+	dropAt      time.Duration // 0 = none: the trusted peer closes its connection at this offset
 	slowHandler bool
 	reqMempool  bool
 	horizon     time.Duration
@@ -148,7 +149,7 @@ type txScenario struct {
 
 func (sc *txScenario) String() string {
 	var sb strings.Builder
-	fmt.Fprintf(&sb, "%s untrusted=%d safeDelay=%dms preempt=1/%d lat=%v+%v restart=%v txs=[", sc.knobs, sc.untrusted, sc.safeDelay, sc.preemptDen, sc.latBase, sc.latJitter, sc.restartAt)
+	fmt.Fprintf(&sb, "%s untrusted=%d safeDelay=%dms preempt=1/%d lat=%v+%v restart=%v drop=%v txs=[", sc.knobs, sc.untrusted, sc.safeDelay, sc.preemptDen, sc.latBase, sc.latJitter, sc.restartAt, sc.dropAt)
 	for _, t := range sc.txs {
 		fmt.Fprintf(&sb, "T%d{rel=%v in=%d blk=%d", t.idx, t.relevant, len(t.spends), t.inBlock)
 		for _, d := range t.deliveries {
@@ -176,6 +177,7 @@ type txGenOpts struct {
 	maxTxs      int
 	silentPeers bool // some announcements are never honoured
 	blockConflicts bool // blocks may confirm a tx that conflicts with an unconfirmed one not in the block
+	dropConn bool // the trusted connection may be lost once (the node reconnects and catches up while not in sync)
 	// C08: custom scripts and subscriptions
 	prepare  func(ns *NodeSim)
 	mkTx     func(w *TxWorld, spends []wire.OutPoint, nOut int) (*wire.MsgTx, bool)
@@ -328,6 +330,17 @@ func genTxScenario(c *Ctx, w *TxWorld, o txGenOpts) *txScenario {
 	if o.restart && t.Bool(1, 2) {
 		sc.restartAt = time.Duration(500+t.Choose(uint32(span/time.Millisecond)+4000)) * time.Millisecond
 	}
+	if o.dropConn && t.Bool(1, 3) {
+		c.FaultConfigured("F-close")
+		sc.dropAt = time.Duration(200+t.Choose(uint32(span/time.Millisecond)+3000)) * time.Millisecond
+		if len(sc.blocks) > 0 && t.Bool(2, 3) {
+			// shortly before a block, so that the block is fetched during the catch-up after the reconnect
+			b := sc.blocks[t.Choose(uint32(len(sc.blocks)))]
+			if d := b.at - time.Duration(t.Choose(2500))*time.Millisecond; d > 0 {
+				sc.dropAt = d
+			}
+		}
+	}
 	sc.horizon = span + 8*time.Second
 	return sc
 }
@@ -343,6 +356,7 @@ type readySample struct {
 }
 
 type txRun struct {
+	drops []time.Duration // instants at which the trusted connection was closed by the peer
 	c       *Ctx
 	ns      *NodeSim
 	sc      *txScenario
@@ -555,6 +569,9 @@ func (tr *txRun) drive() {
 	if sc.restartAt > 0 {
 		evs = append(evs, ev{at: sc.restartAt, kind: 2})
 	}
+	if sc.dropAt > 0 {
+		evs = append(evs, ev{at: sc.dropAt, kind: 3})
+	}
 	sort.SliceStable(evs, func(i, j int) bool { return evs[i].at < evs[j].at })
 	for _, e := range evs {
 		if wait := tr.origin + e.at - ns.S.Now(); wait > 0 {
@@ -567,10 +584,33 @@ func (tr *txRun) drive() {
 			tr.mine(e.b)
 		case 2:
 			tr.restart()
+		case 3:
+			if pc := ns.Trusted.Live(); pc != nil {
+				c.FaultFired("F-close")
+				simrt.Eventf("fault", "trusted peer closes %s", pc)
+				tr.drops = append(tr.drops, ns.S.Now())
+				pc.C.Close()
+				ns.Touch()
+			}
 		}
 	}
 	// quiescence: safe delay + settle
 	simrt.Sleep(time.Duration(sc.safeDelay)*time.Millisecond + 40*time.Second)
+	if len(tr.drops) > 0 {
+		// after a lost connection the node may need its own header time-out (about a minute) and
+		// another reconnect before it has caught up; how fast it does is C01's business, not this
+		// scenario's: wait (bounded) until it holds the peer's tip
+		deadline := ns.S.Now() + 10*time.Minute
+		for ns.S.Now() < deadline && !ns.RunDone {
+			caught := false
+			simrt.NoPreempt(func() { caught = ns.Node.VerifBlocks().LastHeight() >= ns.Trusted.Best.Height })
+			if caught {
+				break
+			}
+			simrt.Sleep(time.Second)
+		}
+		simrt.Sleep(5 * time.Second)
+	}
 }
 
 func (tr *txRun) deliver(ts *txSpec, d txDelivery) {
